@@ -86,11 +86,11 @@ BOUND = {
     'quick': '4 pulses; 1 chopper: 5 distances x 19 window patterns; 2 choppers: 4 distance pairs (one at equal distance) x 13^2 patterns; '
     '3 choppers: 2 ladders x 3^3 patterns x 2 pulses; 5 choppers: all 5 distances x 3^5 patterns; per configuration the whole program family '
     '(all listing orders up to 4 choppers, 9 orders for 5), final distance 80 m; histories: 2 pulses x 4 bases x all sequences of 6 operations '
-    'up to depth 3 (<= 259 sequences each); units: 2 pulses x 13 cascades (0-5 choppers, equal distances, chopper at 0 m) x 15 representations; completed',
+    'up to depth 3 (<= 259 sequences each); units: 2 pulses x 13 cascades (0-5 choppers, equal distances, chopper at 0 m) x 16 representations; completed',
     'thorough': '7 pulses x 5 distances x 22 patterns (1 chopper); 6 pulses x all 15 distance pairs x 19^2 patterns (2 choppers); 4 pulses x 6 ladders x 6^3 '
     '(3 choppers); 3 pulses x 2 ladders x 4^4 (4 choppers); 2 pulses x 2 ladders x 3^5 (5 choppers); same program family; '
     'histories: 4 pulses x 6 bases x all sequences of 6 operations up to depth 4 (<= 1555 sequences each); units: quick set + every 1-chopper '
-    'configuration x 15 representations + 2 pulses x 15 pairs x 13^2 patterns x 5 key representations + 3 ladders x 3^3 x 15 + 3^5 x 5; completed',
+    'configuration x 16 representations + 2 pulses x 15 pairs x 13^2 patterns x 5 key representations + 3 ladders x 3^3 x 16 + 3^5 x 5; completed',
 }
 REQUIRED_CLASSES = [
     'cut_const_lambda_edge_open',
@@ -142,6 +142,8 @@ REQUIRED_CLASSES = [
     'units_int_m',
     'units_int_query_mm',
     'units_int_pulse_ms',
+    'units_int_wavelength',
+    'refused_time_unit',
     'units_index_final',
     'units_index_between',
     'units_index_at_chopper',
@@ -1199,6 +1201,7 @@ REPS = {
     'int_query_mm': {'cd': 'm', 'qd': ['mm:int']},
     'int_pulse_ms': {'pt': 'ms:int'},
     'int_pulse_us': {'pt': 'us:int', 'cd': 'mm', 'qd': ['mm']},
+    'int_wavelength': {'pl': 'angstrom:int', 'pt': 'us:int', 'cd': 'cm:int', 'qd': ['mm:int']},
 }
 REP_DEFAULT = {'cd': 'm', 'qd': ['m'], 'tw': 's', 'pt': 'ms', 'pl': 'angstrom'}
 REPS_KEY = ['cm', 'mm', 'query_cm_mm', 'int_mm', 'pulse_us_nm']
@@ -1323,7 +1326,7 @@ def _run_units(ctx, case, rec):
         """Loud refusals the statement does not forbid (reading chosen): mixed chopper units in one list, windows not in
         seconds, lookups in a sequence whose frames carry different distance units, integer/float dtype clashes."""
         if isinstance(e, sc.UnitError) and (mixed_cd or tw_unit != 's' or what == 'index_mixed_frames'):
-            rec.cls('refused_mixed_chopper_units' if mixed_cd and what == 'chop' else ('refused_window_unit' if tw_unit != 's' and what == 'chop' else 'refused_lookup_mixed_frame_units'))
+            rec.cls('refused_mixed_chopper_units' if mixed_cd and what == 'chop' else ('refused_time_unit' if tw_unit != 's' and what == 'chop' else 'refused_lookup_mixed_frame_units'))
             return True
         if isinstance(e, sc.DTypeError) and any_int:
             rec.cls('refused_int_dtype')
